@@ -189,6 +189,20 @@ theorem late_version_route_asis :
     lookup c 2 true = none ∧ lookup (Core.stepAsIs (fun r => r = 2) c (.register 2)) 2 true = some 2 ∧
     lookup (c.step (.register 2)) 2 true = none := by decide
 
+/-- K12e: a registration that had passed the unlocked flag test before the first request went on after it
+    was served: as shipped it was written into the live tree (warm-up being over); now the flags are tested
+    again under the mutex under which `Freeze` stores them -/
+theorem late_enqueue_asis :
+    let c := servedOps.foldl Core.step Core.init
+    lookup c 2 true = none ∧ lookup (enqueueAsIs c 2) 2 true = some 2 ∧ c.step (.register 2) = c := by decide
+
+/-- the same at goroutine level: registration 1 parks at `register.checked`, request 2 freezes the router and is
+    served, the registration continues — and is rejected, the table stays as the request saw it -/
+example :
+    ((run [.register 1, .register 2, .request 1 true] [0, 0, 1, 2, 2, 2, 2, 2, 2, 2, 2, 1]).2.filterMap
+        fun e => match e.out with | .none => none | o => some (e.actor, o)) =
+      [(0, .mut .accepted), (2, .hit (some 1)), (1, .mut .rejected)] := by decide
+
 open Rivaas.Reverse in
 /-- K12c: a static route with a trailing slash reversed to a path it does not match -/
 theorem urlfor_trailing_slash_asis :
@@ -204,7 +218,7 @@ def kindsEx : List Kind :=
    .urlFor 1, .request 2 true]
 
 def schedEx : List Nat :=
-  [0, 1, 2, 3, 2, 3, 2, 4, 6, 7, 8, 2, 5, 2, 3, 2, 2, 3, 3, 9, 9, 9, 4, 5, 2]
+  [0, 0, 1, 2, 3, 2, 3, 2, 4, 6, 7, 8, 2, 5, 2, 3, 2, 2, 3, 3, 9, 9, 9, 4, 5, 2]
 
 example : ∀ i ∈ schedEx, i < kindsEx.length := by decide
 example : ∀ st ∈ (run kindsEx schedEx).1.status, st = .finished := by decide
